@@ -155,6 +155,32 @@ func addSyncIntrinsics() {
 		}
 		return e.c.Bool(active), true
 	}
+	intrinsics[rtPkg+"TimerPending"] = func(e *Engine, s *State, f *Frame, fn *ssa.Function, args []Value, retIdx int, advance bool) (Value, bool) {
+		var p *Pointer
+		if iv, ok := args[0].(*IfaceV); ok {
+			if iv.T == nil {
+				return e.c.False, true
+			}
+			p = iv.V.(*Pointer)
+		} else {
+			p = args[0].(*Pointer)
+		}
+		if p.IsNil() {
+			return e.c.False, true
+		}
+		gid := s.ghost[fmt.Sprintf("timer:%d", p.Obj)] - 1
+		return e.c.Bool(gid >= 0 && gid < len(s.gs) && s.gs[gid].timerPending), true
+	}
+	intrinsics[rtPkg+"Quiesce"] = func(e *Engine, s *State, f *Frame, fn *ssa.Function, args []Value, retIdx int, advance bool) (Value, bool) {
+		g := s.g()
+		for _, o := range s.gs {
+			if o != g && !o.timerPending && e.enabled(s, o) {
+				e.block(s, &waitDesc{kind: "quiesce"})
+				return tailCall, true
+			}
+		}
+		return nil, true
+	}
 	intrinsics[rtPkg+"Yield"] = func(e *Engine, s *State, f *Frame, fn *ssa.Function, args []Value, retIdx int, advance bool) (Value, bool) {
 		e.voluntary(s)
 		return nil, true
@@ -241,6 +267,13 @@ func (e *Engine) enabled(s *State, g *Goroutine) bool {
 		return s.ghost[w.key] <= 0
 	case "never":
 		return false
+	case "quiesce":
+		for _, o := range s.gs {
+			if o != g && !o.timerPending && (o.wait == nil || o.wait.kind != "quiesce") && e.enabled(s, o) {
+				return false
+			}
+		}
+		return true
 	}
 	return true
 }
@@ -294,8 +327,13 @@ func (e *Engine) schedule(s *State, mustSwitch bool) bool {
 	if s.gs[0].done || len(s.gs[0].frames) == 0 {
 		return false
 	}
+	// candidates in round-robin order starting after the current goroutine (delay-bounded scheduling:
+	// the first candidate is the default; every other choice costs one unit of the switch budget)
 	var cands []int
-	for i, g := range s.gs {
+	n := len(s.gs)
+	for d := 1; d <= n; d++ {
+		i := (s.cur + d) % n
+		g := s.gs[i]
 		if i == s.cur && mustSwitch {
 			continue
 		}
@@ -318,20 +356,25 @@ func (e *Engine) schedule(s *State, mustSwitch bool) bool {
 		}
 		return false
 	}
-	for _, ci := range cands[1:] {
-		o := s.clone(e)
-		o.cur = ci
-		o.gs[ci].wait = nil
-		o.gs[ci].resumed = true
-		o.gs[ci].timerPending = false
-		o.sched = append(o.sched, ci)
-		e.work = append(e.work, o)
-		e.paths++
+	if s.switchesLeft > 0 {
+		for _, ci := range cands[1:] {
+			o := s.clone(e)
+			o.switchesLeft--
+			o.cur = ci
+			o.gs[ci].wait = nil
+			o.gs[ci].resumed = true
+			o.gs[ci].resumeStep = o.steps
+			o.gs[ci].timerPending = false
+			o.sched = append(o.sched, ci)
+			e.work = append(e.work, o)
+			e.paths++
+		}
 	}
 	pick := cands[0]
 	s.cur = pick
 	s.gs[pick].wait = nil
 	s.gs[pick].resumed = true
+	s.gs[pick].resumeStep = s.steps
 	s.gs[pick].timerPending = false
 	s.sched = append(s.sched, pick)
 	return true
@@ -346,7 +389,9 @@ func (e *Engine) voluntary(s *State) {
 	g := s.g()
 	if g.resumed {
 		g.resumed = false
-		return
+		if s.steps <= g.resumeStep+1 {
+			return // just resumed at this very operation: do not preempt it again
+		}
 	}
 	var others []int
 	for i, o := range s.gs {
@@ -370,10 +415,12 @@ func (e *Engine) voluntary(s *State) {
 		o.cur = ci
 		o.gs[ci].wait = nil
 		o.gs[ci].resumed = true
+			o.gs[ci].resumeStep = o.steps
 		o.gs[ci].timerPending = false
 		o.sched = append(o.sched, ci)
 		// the preempted goroutine re-executes its instruction when resumed, without being preempted again there
 		o.gs[s.cur].resumed = true
+		o.gs[s.cur].resumeStep = -10 // re-executes the same operation when resumed
 		e.work = append(e.work, o)
 		e.paths++
 	}
@@ -406,8 +453,8 @@ func (e *Engine) spawn(s *State, f *Frame, fnv Value, method *types.Func, args [
 		}
 		fn, bindings = fv.Fn, fv.Bindings
 	}
-	if len(s.gs) >= 12 {
-		e.errf("more than 12 goroutines")
+	if len(s.gs) >= 48 {
+		e.errf("more than 48 goroutines")
 	}
 	f.ip++
 	// gopool.Go(fn) and friends are redirected here by intrinsics as well
@@ -431,8 +478,8 @@ func (e *Engine) newTimer(s *State, fv *FuncV) *Pointer {
 
 func (e *Engine) armTimer(s *State, obj int, fv *FuncV) {
 	e.usedModels = true
-	if len(s.gs) >= 12 {
-		e.errf("more than 12 goroutines (timers)")
+	if len(s.gs) >= 48 {
+		e.errf("more than 48 goroutines (timers)")
 	}
 	ng := &Goroutine{id: len(s.gs), timerPending: true}
 	ng.frames = []*Frame{e.newFrame(fv.Fn, nil, fv.Bindings, -1)}
